@@ -270,10 +270,14 @@ func writeListOrArray(e *Encoder, d *decodeState, ifWriteTag bool, tagName strin
 			if d.opcode != scanBeginList {
 				return TagList, d.error("different TagType in List")
 			}
-			elemType, err = writeListOrArray(e2, d, false, "")
+			t, err := writeListOrArray(e2, d, false, "")
 			if err != nil {
 				return tagType, err
 			}
+			if count > 0 && t != elemType {
+				return TagList, d.error("different TagType in List")
+			}
+			elemType = t
 			count++
 			if d.opcode == scanSkipSpace {
 				d.scanWhile(scanSkipSpace)
@@ -346,6 +350,9 @@ func writeListOrArray(e *Encoder, d *decodeState, ifWriteTag bool, tagName strin
 		}
 	}
 	d.scanNext()
+	if tagType == 0 {
+		tagType = TagList
+	}
 	return
 }
 
